@@ -129,6 +129,53 @@ def gen_stream(rng, proto, big):
     marks.append(len(out))
     return out, marks
 
+ACN_HDR = [0x41, 0x53, 0x43, 0x2d, 0x45, 0x31, 0x2e, 0x31, 0x37, 0, 0, 0]
+
+def acn_pdu(rng, n, three=None):
+    """a PDU of total length n (length field included)"""
+    three = (n > 4095 or rng.random() < 0.3) if three is None else three
+    ls = 3 if three else 2
+    body = rbytes(rng, max(n - ls, 0), (0, 1, 0x80, 0x70))
+    hi = rng.choice([0, 0x40, 0x20, 0x70])      # V/H/D flags, irrelevant for framing
+    if three:
+        return [0x80 | hi | ((n >> 16) & 15), (n >> 8) & 255, n & 255] + body
+    return [hi | ((n >> 8) & 15), n & 255] + body
+
+def gen_acn(rng, big):
+    out, marks = [], []
+    nblocks = rng.choice([1, 1, 2, 3, 5]) if not big else rng.choice([1, 3, 10])
+    for _ in range(nblocks):
+        marks.append(len(out))
+        k = rng.random()
+        pdus = []
+        for _ in range(rng.choice([0, 1, 1, 2, 3, 6])):
+            n = rng.choice([2, 3, 3, 4, 5, 17, 255, 256, 481, 484, 485, 497, 498, 499, 500, 501, 638, 1000])
+            if big and rng.random() < 0.2:
+                n = rng.choice([4095, 4096, 5000, 70000])
+            three = None
+            if n == 2: three = False
+            pdus.append(acn_pdu(rng, n, three))
+        total = sum(len(x) for x in pdus)
+        hdr = list(ACN_HDR)
+        if k < 0.06:
+            hdr[rng.randrange(12)] ^= rng.choice([1, 0x80, 0xff])        # bad packet identifier
+        blen = total
+        if 0.06 <= k < 0.12:
+            blen = max(0, total + rng.choice([-1, 1, 5]))                # block length disagrees with the PDUs
+        out += hdr + [(blen >> 24) & 255, (blen >> 16) & 255, (blen >> 8) & 255, blen & 255]
+        for x in pdus:
+            marks.append(len(out))
+            if 0.12 <= k < 0.17 and rng.random() < 0.4:
+                # length smaller than its own field
+                x = [x[0] & 0xf0, rng.choice([0, 1])] + x[2:] if not (x[0] & 0x80) else [x[0] & 0xf0, 0, rng.choice([0, 1, 2])] + x[3:]
+            out += x
+        if 0.17 <= k < 0.22:
+            out = out[:len(out) - rng.randrange(0, min(len(out), 20))]   # truncated
+        if 0.22 <= k < 0.25:
+            out += rbytes(rng, rng.choice([1, 5, 16, 30]))               # noise between blocks
+    marks.append(len(out))
+    return out, marks
+
 def part_from_cuts(total, cuts):
     cuts = sorted({c for c in cuts if 0 < c < total})
     pts = [0] + cuts + [total]
@@ -188,11 +235,11 @@ def recv_case(rng):
 
 def gen_cases(rng, tier):
     quick = tier == 'quick'
-    n_stream = 420 if quick else 6000
-    for proto in ('usbpro', 'robe', 'opc'):
+    n_stream = 380 if quick else 5000
+    for proto in ('usbpro', 'robe', 'opc', 'acn'):
         for i in range(n_stream):
             big = (i % 40 == 39)
-            st, marks = gen_stream(rng, proto, big)
+            st, marks = gen_acn(rng, big) if proto == 'acn' else gen_stream(rng, proto, big)
             if proto != 'opc' and len(st) > 50000:
                 st = st[:50000]
             cap = rng.choice([0, 0, 0, 0, 1, 2, 3, 7, 100])
